@@ -585,7 +585,16 @@ def sym_eig(T, *a, **k):
     hook = EIG_CONTRACT[0]
     if hook is None:
         raise Unsupported('scipy.linalg.eig on symbolic values without a harness contract')
-    return hook(T)
+    left = k.get('left', a[1] if len(a) > 1 else False)
+    right = k.get('right', a[2] if len(a) > 2 else True)
+    if (len(a) > 0 and a[0] is not None) or k.get('b') is not None:
+        raise Unsupported('generalised eigenproblem on symbolic values')
+    if left and not right:
+        # (w, vl) with vl^H T = w vl^H: the left eigenvectors of T are the right eigenvectors of T^T (real matrices)
+        return hook(funcs._as_sarr(T).T)
+    if right and not left:
+        return hook(T)
+    raise Unsupported('scipy.linalg.eig(left=%r, right=%r) on symbolic values' % (left, right))
 
 
 EIG_CONTRACT = [None]     # harness-supplied contract for scipy.linalg.eig
